@@ -2,7 +2,7 @@
 import os
 from . import lib
 from .engine import Cfg
-from .roomlib import kv, same_decisions
+from .roomlib import kv, same_decisions, nest_tree, nest_existing
 from .C01 import parse_dump
 
 
@@ -88,14 +88,15 @@ class C12(Cfg):
                 continue          # the precondition "same room definition" does not hold (a C10 matter)
             # the precondition "same prior versions": rows outside any room are not synchronised, so a peer does
             # not hold the previous version of a row that was room-less before this operation
-            concerned = {a.get("h")} | {t.split(":")[0][1:] for t in a.get("c", "").split("+") if t[:1] == "h"}
+            concerned = {a.get("h")} | nest_existing(a)
             if k == "delref": concerned = {a.get("h")}
             if any(before.get(h) and before[h][1] == "-" for h in concerned):
                 continue
             if local == "ok" and verdict in ("refuse", "partial"):
                 sig = "local-accepts-peer-refuses"
                 rows_refused = [x for x in refused if x.startswith("n") or x.startswith("stale")]
-                if k == "nest" and any(x != "n" + a["h"] for x in rows_refused) and before.get(a["h"]) == rows.get(a["h"]):
+                if k == "nest" and any(x != "n" + a["h"] and any(before.get(y) == rows.get(y) for y in nest_tree(a).get(x.split(":")[-1][1:], [a["h"]]))
+                                       for x in rows_refused):
                     sig += ":nested-subnode-unchanged-parent"
                 elif k in ("upd", "nest") and any(
                         before.get(h) and rows.get(h) and before[h][1] != rows[h][1] and before[h][1] != "-" for h in rows):
